@@ -210,3 +210,19 @@ fn d3b_every_pair_within_the_cutoff_is_counted() {
     let reported = st.score().unwrap();
     assert!((reported + full).abs() < 1e-12, "score {} but the lattice energy per molecule within the cutoff is {}", reported, full);
 }
+
+/// D10 (C08/C07): a proposal clamped onto a special position (x = -1/2 in a mirror group) puts two LJ molecules on top
+/// of each other; the pair energy is inf - inf = NaN, `min(NaN, 1) = 1` accepts it, and the optimiser returns a state
+/// whose score is NaN instead of a finite, defined score.
+#[test]
+fn d10_optimiser_returns_a_finite_score() {
+    use packing::{LJShape2, PotentialState};
+    let wg = get_wallpaper_group(WallpaperGroups::p1m1).unwrap();
+    for seed in 0..6 {
+        let st = PotentialState::from_group(LJShape2::from_trimer(0.637556, 120., 1.), &wg).unwrap();
+        let res = BuildOptimiser::default().seed(seed).steps(2000).inner_steps(200).kt_start(0.).kt_ratio(Some(0.)).max_step_size(8.)
+            .build().optimise_state(st);
+        let s = res.score();
+        assert!(s.map_or(false, |v| v.is_finite()), "seed {}: optimiser returned a state with score {:?}", seed, s);
+    }
+}
